@@ -8,6 +8,7 @@ import (
 	"log"
 	"net"
 	"net/netip"
+	"os"
 	"strings"
 	"sync"
 	"sync/atomic"
@@ -321,4 +322,35 @@ func (h *vH) expectRA(forwarding bool, final bool) model.RA {
 	}
 	ra, _, _ := model.ExpectedRA(&e, sys, forwarding, vEpoch, time.Now())
 	return ra
+}
+
+// --- small helpers shared by every driver of this package -------------------
+// (kept here so that each property's binary needs only its own driver files
+// next to this one: a driver that stops building against a refactored tree
+// then breaks its own check and no other)
+
+const vMs = time.Millisecond
+
+// vTiming is false in the parallel (-race) passes, which assert only the
+// schedule-insensitive oracles.
+var vTiming = os.Getenv("VERIF_TIMING") != "0"
+
+func vPart(def string) string {
+	if p := os.Getenv("VERIF_PART"); p != "" {
+		return p
+	}
+	return def
+}
+
+func vOnly(ev []vfake.Event, kinds ...string) []vfake.Event {
+	var out []vfake.Event
+	for _, e := range ev {
+		for _, k := range kinds {
+			if e.Kind == k {
+				out = append(out, e)
+				break
+			}
+		}
+	}
+	return out
 }
